@@ -781,6 +781,8 @@ func c16InvalidShapes(rule *c16Rule, r *rand.Rand) []c16InvalidCase {
 	if sel != "" {
 		rest := line[len("SecRule "+targets):]
 		out = append(out, c16InvalidCase{"empty-negated-selector", "SecRule " + targets + "|!" + sel + ":" + rest})
+		// … and in the middle of the list, followed by another target
+		out = append(out, c16InvalidCase{"empty-negated-selector", "SecRule " + targets + "|!" + sel + ":|REQUEST_METHOD" + rest})
 	}
 	return out
 }
